@@ -2,12 +2,14 @@
 from __future__ import annotations
 
 import json
+import os
+from pathlib import Path
 import time
 from dataclasses import dataclass, field
 from typing import Any
 
 from . import findings
-from .common import VERIF, seed
+from .common import REPO, VERIF, seed
 
 
 @dataclass
@@ -77,8 +79,11 @@ class Report:
             if e["key"] not in printed_known:
                 printed_known.add(e["key"])
                 print(f"KNOWN-FINDING: property={self.prop} {e['key']}: {e['what']}")
-        rdir = VERIF / "replays"
-        rdir.mkdir(exist_ok=True)
+        # a run against a scratch copy of the repository (OPC_REPO: seeded changes) must not touch the evidence / replays of /repo itself
+        scratch_run = str(REPO) != "/repo"
+        out_root = Path(os.environ.get("VERIF_SCRATCH_OUT", "/tmp/verif-scratch-out")) / REPO.name if scratch_run else VERIF
+        rdir = out_root / "replays"
+        rdir.mkdir(exist_ok=True, parents=True)
         for old in rdir.glob(f"{self.prop}-*.json"):
             old.unlink()
         for i, (v, _) in enumerate(new):
@@ -116,8 +121,8 @@ class Report:
             "wall_s": round(time.time() - self.t0, 2),
             "violations": len(new),
         }
-        (VERIF / "evidence").mkdir(exist_ok=True)
-        (VERIF / "evidence" / f"{self.prop}.json").write_text(json.dumps(ev, indent=1, default=str))
+        (out_root / "evidence").mkdir(exist_ok=True, parents=True)
+        (out_root / "evidence" / f"{self.prop}.json").write_text(json.dumps(ev, indent=1, default=str))
         print(f"[{self.prop}/{self.tier}] states={self.states} transitions={self.transitions} traces={self.traces} "
               f"evaluations={self.evaluations} nontrivial={len(self.nontrivial)} known={len(printed_known)} "
               f"new={len(new)} drift={self.extra.get('spec_drift', 0)} wall={ev['wall_s']}s")
